@@ -29,6 +29,27 @@ static PyObject *BufferType;
         return NULL; \
     }
 
+/* Parse a single unsigned integer argument, checking it fits in `max`. */
+static int
+parse_uint(PyObject *args, uint64_t max, uint64_t *value)
+{
+    PyObject *obj;
+    unsigned long long v;
+
+    if (!PyArg_ParseTuple(args, "O", &obj))
+        return 0;
+
+    v = PyLong_AsUnsignedLongLong(obj);
+    if (v == (unsigned long long)-1 && PyErr_Occurred())
+        return 0;
+    if (v > max) {
+        PyErr_SetString(PyExc_OverflowError, "Integer is out of range");
+        return 0;
+    }
+    *value = v;
+    return 1;
+}
+
 static int
 Buffer_init(BufferObject *self, PyObject *args, PyObject *kwargs)
 {
@@ -40,14 +61,23 @@ Buffer_init(BufferObject *self, PyObject *args, PyObject *kwargs)
     if (!PyArg_ParseTupleAndKeywords(args, kwargs, "|ny#", (char**)kwlist, &capacity, &data, &data_len))
         return -1;
 
-    if (data != NULL) {
-        self->base = malloc(data_len);
-        self->end = self->base + data_len;
-        memcpy(self->base, data, data_len);
-    } else {
-        self->base = malloc(capacity);
-        self->end = self->base + capacity;
+    if (data != NULL)
+        capacity = data_len;
+    if (capacity < 0) {
+        PyErr_SetString(PyExc_ValueError, "Buffer capacity cannot be negative");
+        return -1;
     }
+
+    free(self->base);
+    self->base = malloc(capacity ? capacity : 1);
+    if (self->base == NULL) {
+        self->end = self->pos = NULL;
+        PyErr_NoMemory();
+        return -1;
+    }
+    self->end = self->base + capacity;
+    if (data != NULL)
+        memcpy(self->base, data, data_len);
     self->pos = self->base;
     return 0;
 }
@@ -209,8 +239,8 @@ Buffer_push_bytes(BufferObject *self, PyObject *args)
 static PyObject *
 Buffer_push_uint8(BufferObject *self, PyObject *args)
 {
-    uint8_t value;
-    if (!PyArg_ParseTuple(args, "B", &value))
+    uint64_t value;
+    if (!parse_uint(args, 0xFF, &value))
         return NULL;
 
     CHECK_WRITE_BOUNDS(self, 1)
@@ -222,8 +252,8 @@ Buffer_push_uint8(BufferObject *self, PyObject *args)
 static PyObject *
 Buffer_push_uint16(BufferObject *self, PyObject *args)
 {
-    uint16_t value;
-    if (!PyArg_ParseTuple(args, "H", &value))
+    uint64_t value;
+    if (!parse_uint(args, 0xFFFF, &value))
         return NULL;
 
     CHECK_WRITE_BOUNDS(self, 2)
@@ -236,8 +266,8 @@ Buffer_push_uint16(BufferObject *self, PyObject *args)
 static PyObject *
 Buffer_push_uint32(BufferObject *self, PyObject *args)
 {
-    uint32_t value;
-    if (!PyArg_ParseTuple(args, "I", &value))
+    uint64_t value;
+    if (!parse_uint(args, 0xFFFFFFFF, &value))
         return NULL;
 
     CHECK_WRITE_BOUNDS(self, 4)
@@ -252,7 +282,7 @@ static PyObject *
 Buffer_push_uint64(BufferObject *self, PyObject *args)
 {
     uint64_t value;
-    if (!PyArg_ParseTuple(args, "K", &value))
+    if (!parse_uint(args, UINT64_MAX, &value))
         return NULL;
 
     CHECK_WRITE_BOUNDS(self, 8)
@@ -271,8 +301,13 @@ static PyObject *
 Buffer_push_uint_var(BufferObject *self, PyObject *args)
 {
     uint64_t value;
-    if (!PyArg_ParseTuple(args, "K", &value))
+    if (!parse_uint(args, UINT64_MAX, &value)) {
+        if (PyErr_ExceptionMatches(PyExc_OverflowError)) {
+            PyErr_Clear();
+            PyErr_SetString(PyExc_ValueError, "Integer is too big for a variable-length integer");
+        }
         return NULL;
+    }
 
     if (value <= 0x3F) {
         CHECK_WRITE_BOUNDS(self, 1)
